@@ -40,7 +40,11 @@ def apply_shims(rel, which, rep, tag=""):
             imp, _, only = w.partition("@")
             if only and only != f:
                 continue
-            pat = re.compile(r'^(\s*)(?:[A-Za-z_][A-Za-z0-9_]*\s+)?"' + re.escape(imp) + r'"\s*$', re.M)
+            # single-line form: import "sync"
+            pat1 = re.compile(r'^import\s+(?:[A-Za-z_][A-Za-z0-9_]*\s+)?"' + re.escape(imp) + r'"\s*$', re.M)
+            new = pat1.sub(lambda m: "import " + SHIMS[imp], new)
+            # inside an import block
+            pat = re.compile(r'^(\s+)(?:[A-Za-z_][A-Za-z0-9_]*\s+)?"' + re.escape(imp) + r'"\s*$', re.M)
             new = pat.sub(lambda m: m.group(1) + SHIMS[imp], new)
         if new != src:
             dst = os.path.join(GEN, tag + rel.replace("/", "__") + "__" + f)
